@@ -110,6 +110,9 @@ class Chan(Engine):
             for hrp in ('bc', 'tb', 'bcrt'):
                 for ver in range(0, 17):
                     P({'op': 'codec_lengths', 'hrp': hrp, 'ver': ver})
+            # total string lengths around the 90-character limit, reached with long prefixes
+            for lo in range(1, 84, 6):
+                P({'op': 'length_edge', 'lo': lo, 'hi': min(84, lo + 6)})
         return plans
 
     # ------------------------------------------------------------------ execution
@@ -495,6 +498,19 @@ class Chan(Engine):
                 got = self._dec(hrp, want)
                 ctx.check(got is None, 'C11.len', 'decoder accepts (version %d, %d-byte program), which BIP173 forbids' % (ver, n), ver=ver, plen=n)
         ctx.log(0, 0, 'codec_lengths', [hrp, ver], 'ok')
+
+    def _op_length_edge(self, a):
+        ctx = self.ctx
+        for L in range(a['lo'], a['hi']):
+            hrp = ('x' + 'abcdefghij' * 9)[:L]
+            for ver in (1, 16):
+                for n in range(2, 41):
+                    prog = bytes((11 * i + n) & 0xff for i in range(n))
+                    text = RB32.encode(hrp, ver, prog)
+                    if 87 <= len(text) <= 94:
+                        self._b32_judge(hrp, text, 'of total length %d with a valid checksum' % len(text), (ver, prog), False, fault='ext', total=len(text))
+                        ctx.fault('length-limit-edge')
+        ctx.log(0, 0, 'length_edge', a['lo'], 'ok')
 
     # ------------------------------------------------------------------
     def simplify(self, plan):
